@@ -110,6 +110,8 @@ enum Workload {
   RawFault { fault: &'static str },
   /// receiver application pauses, sender keeps sending with SNDTIMEO=0; afterwards everything accepted arrives
   Backpressure { side: u8, size: usize },
+  /// a receiver with a tiny RCVHWM and a slightly slow application: order must survive back-pressure
+  SlowConsumer { n: usize, rcvhwm: i32 },
   /// connect / talk / close cycles, then a burst; file descriptors must not leak
   Churn { cycles: usize },
   /// peer completes the handshake and then goes silent: heartbeats must close the connection
@@ -436,6 +438,59 @@ async fn run_workload(w: &Workload, v: Variant) -> Value {
       // the count accepted depends on kernel buffer sizes and is not compared; the contract is
       json!({"hit_backpressure": refused > 0, "all_accepted_delivered_in_order": got == accepted})
     }
+    Workload::SlowConsumer { n, rcvhwm } => {
+      // three rounds on fresh connections: the window is timing dependent, any round may show it
+      let mut all_sent = true;
+      let mut in_order = true;
+      let mut first_bad_any = None;
+      let mut received_total = 0usize;
+      for _round in 0..3 {
+        let rx = mk(&ctx, SocketType::Pull, v, &[(o::RCVHWM, *rcvhwm)]).await;
+        let ep = bound(&rx).await;
+        let tx = mk(&pctx, SocketType::Push, Variant { uring: false, zerocopy: false, multishot: false, cork: false }, &[(o::SNDHWM, 1000), (o::SNDTIMEO, 5000)]).await;
+        tx.connect(&ep).await.expect("connect");
+        wait_connected(&tx).await;
+        let n = *n;
+        let tx2 = tx.clone();
+        let sender = tokio::spawn(async move {
+          let mut ok = 0usize;
+          for i in 0..n as u32 {
+            let mut body = vec![0u8; 16];
+            body[..4].copy_from_slice(&i.to_be_bytes());
+            if tx2.send(msg(&body, false)).await.is_ok() {
+              ok += 1;
+            }
+          }
+          ok
+        });
+        let mut got: Vec<u32> = vec![];
+        while got.len() < n {
+          match tokio::time::timeout(Duration::from_secs(3), rx.recv()).await {
+            Ok(Ok(m)) => {
+              let d = m.data().unwrap_or(&[]);
+              if d.len() >= 4 {
+                got.push(u32::from_be_bytes(d[..4].try_into().unwrap()));
+              }
+              if got.len() % 16 == 0 {
+                tokio::time::sleep(Duration::from_micros(200)).await;
+              }
+            }
+            _ => break,
+          }
+        }
+        let sent_ok = sender.await.unwrap_or(0);
+        all_sent &= sent_ok == n;
+        received_total += got.len();
+        let first_bad = got.iter().enumerate().find(|(i, s)| **s != *i as u32).map(|(i, s)| (i, *s));
+        if got.len() != n || first_bad.is_some() {
+          in_order = false;
+          first_bad_any = first_bad_any.or(first_bad);
+        }
+        let _ = tx.close().await;
+        let _ = rx.close().await;
+      }
+      json!({"all_sent": all_sent, "received_all_in_order": in_order, "_first_out_of_order": format!("{:?}", first_bad_any), "_received": received_total})
+    }
     Workload::Churn { cycles } => {
       let fds = || std::fs::read_dir("/proc/self/fd").map(|d| d.count()).unwrap_or(0);
       let rx = mk(&pctx, SocketType::Pull, v, &[(o::RCVHWM, 5000)]).await;
@@ -561,6 +616,12 @@ fn workloads(thorough: bool, recv_size: usize, send_size: usize) -> Vec<Workload
   sizes.sort();
   sizes.dedup();
   let mut w = vec![];
+  // first, while the backend has seen nothing else: ordering under back-pressure is timing sensitive
+  w.push(Workload::SlowConsumer { n: if thorough { 10_000 } else { 3000 }, rcvhwm: 4 });
+  if thorough {
+    w.push(Workload::SlowConsumer { n: 10_000, rcvhwm: 1 });
+    w.push(Workload::SlowConsumer { n: 5000, rcvhwm: 64 });
+  }
   let sides: Vec<u8> = if thorough { vec![0, 1, 2] } else { vec![2] };
   for side in sides {
     w.push(Workload::Stream { side, sizes: sizes.clone(), repeat: 1, multipart: false });
